@@ -28,6 +28,9 @@ func coreC20(tier string) []RunSpec {
 	}
 	for k := 0; k < 8; k++ {
 		out = append(out, RunSpec{Profile: "core:cache", Params: map[string]int{"cache": 1, "k": k}})
+		if k < 4 {
+			out = append(out, RunSpec{Profile: "core:cache-across-rotation", Params: map[string]int{"cache": 1, "cacherot": 1, "k": k}})
+		}
 		out = append(out, RunSpec{Profile: "core:inject", Params: map[string]int{"inject": 1, "k": k}})
 	}
 	return out
@@ -307,6 +310,19 @@ func (m *MW) StepCacheReplay() {
 	// optionally other traffic in between
 	if m.T.Chance("cache.between", 1, 2) {
 		m.StepSwap()
+	}
+	if m.T.Chance("cache.rotate", 1, 4) || m.rc.P("cacherot", 0) == 1 {
+		// the operator rotates the keyset on the running mint and clients fetch keys and keysets:
+		// none of that makes an executed request executable again
+		m.StepRotateRuntime()
+		m.rc.S.BeginEpisode()
+		m.rc.S.Run1(m.name("cachekeys"), W.Ext, func() {
+			m.Atk.Get(mint, "/v1/keys")
+			m.Atk.Get(mint, "/v1/keysets")
+			m.Atk.Get(mint, "/v1/keys/"+ks.ID)
+			m.Atk.Get(mint, "/v1/info")
+		})
+		m.rc.S.Probe("c20_rotation_and_key_requests_before_replay")
 	}
 	if m.T.Chance("cache.wait", 1, 3) {
 		m.rc.S.Sleep(time.Duration(1+m.T.Choose("cache.secs", 280)) * time.Second) // inside the 300 s TTL
